@@ -59,6 +59,12 @@ PROPS = {
     "C16": dict(FRONTMON, level="exploration", variants={"quick": ["checked"], "thorough": ["checked"]}, shards={"quick": 16, "thorough": 16},
                 assumptions=["R-tags: X.680 8.6 canonical order, untagged CHOICE ordered by its smallest root tag (X.691 21.1), automatic tagging iff no component of the list is tagged",
                              "order among extension additions is judged by C02, not here"]),
+    "C01": dict(ZOO, level="exploration", variants={"quick": ["checked"], "thorough": ["checked", "wrapping"]}, shards={"quick": 16, "thorough": 16},
+                assumptions=["types are produced by the real front end + macro expansion + rustc from generated ASN.1; values enter through the Injector and are compared on the abstract level through the Extractor as well as with the derived PartialEq",
+                             "depth <= 3, sizes <= 200000, history length <= 8"]),
+    "C02": dict(ZOO, level="exploration", variants={"quick": ["checked"], "thorough": ["checked", "wrapping"]}, shards={"quick": 16, "thorough": 16},
+                assumptions=["R-PER transcribes X.691 (2015) from memory (Appendix A of DESIGN.md); encoder and decoder of the reference are checked against each other on every case (a mismatch is INCONCLUSIVE)",
+                             "recorded deviations are pinned by deviation models: the writer must match the alternative rule exactly"]),
 }
 
 
@@ -205,7 +211,77 @@ def engine_frontmon(prop, cfg, tier, seed, merged):
     return engine_primmon(prop, cfg, tier, seed, merged, package="frontmon")
 
 
-ENGINES = {"primmon": engine_primmon, "frontmon": engine_frontmon}
+def known_classes():
+    return sorted({k["class"] for k in load_known() if k.get("status") == "known" and k.get("class")})
+
+
+def zoo_prepare(tier, seed, variant, problems, features=None):
+    """zoogen + cargo build of the zoo for one variant; returns the zoorun binary or None."""
+    ok, zoogen, out = cargo_build("zoogen", "checked")
+    if not ok:
+        problems.append("build of zoogen failed: %s" % out[-600:].replace("\n", " | "))
+        return None, None
+    zoo = os.path.join(WORK, "zoo-%s-%d" % (tier, seed))
+    shards = 8 if tier == "quick" else 16
+    profile = "checked" if variant in ("checked", "ddesc") else "wrapping"
+    target_dir = os.path.join(WORK, "target-zoo-" + variant)
+    exclude = []
+    excl_file = os.path.join(zoo, "excluded.json")
+    for attempt in range(6):
+        cmd = [zoogen, "--tier", tier, "--seed", str(seed), "--out", zoo, "--shards", str(shards)]
+        if exclude:
+            cmd += ["--exclude", ",".join(exclude)]
+        rc, out, dt = run(cmd, cwd=VERIF, timeout=1800)
+        if rc != 0:
+            problems.append("zoogen failed: %s" % out[-600:].replace("\n", " | "))
+            return None, None
+        cmd = ["cargo", "build", "--offline", "--profile", profile, "--target-dir", target_dir, "--message-format=short"]
+        if features:
+            cmd += ["-p", "zoorun", "--features", features]
+        rc, out, dt = run(cmd, cwd=zoo, timeout=7200)
+        log("[zoo] build %s attempt %d rc=%d %.1fs" % (variant, attempt, rc, dt))
+        if rc == 0:
+            with open(excl_file, "w") as fh:
+                json.dump(exclude, fh)
+            return os.path.join(target_dir, profile, "zoorun"), zoo
+        # attribute compile errors to groups: paths look like shard_3/src/g_17/zm17x0.rs
+        import re
+        bad = sorted(set(re.findall(r"shard_\d+/src/((?:g|c)_\d+)/", out)))
+        new = [b for b in bad if b not in exclude]
+        if not new:
+            problems.append("zoo build failed without an attributable module: %s" % out[-800:].replace("\n", " | "))
+            return None, None
+        log("[zoo] excluding groups after compile errors (C09 observations): %s" % ",".join(new))
+        exclude += new
+    problems.append("zoo build did not converge")
+    return None, None
+
+
+def engine_zoo(prop, cfg, tier, seed, merged):
+    problems = []
+    classes = known_classes()
+    for variant in cfg["variants"][tier]:
+        binary, zoo = zoo_prepare(tier, seed, variant, problems, features="ddesc" if variant == "ddesc" else None)
+        if not binary:
+            continue
+        extra = ["--schema", os.path.join(zoo, "schema.json"), "--known-classes", ",".join(classes)]
+        if "set-additions-unsorted" in classes:
+            extra.append("--set-additions-sorted")
+        reps, probs = run_workers(binary, prop, tier, seed, variant, cfg["shards"][tier], extra=extra)
+        problems += probs
+        for r in reps:
+            merge_into(merged, r, variant)
+        try:
+            with open(os.path.join(zoo, "excluded.json")) as fh:
+                ex = json.load(fh)
+            if ex:
+                merged["notes"].append("zoo groups excluded after compile errors (C09 observations): %s" % ",".join(ex))
+        except Exception:  # noqa
+            pass
+    return problems
+
+
+ENGINES = {"primmon": engine_primmon, "frontmon": engine_frontmon, "zoo": engine_zoo}
 
 # ------------------------------------------------------------------------------------------------
 # verdict
